@@ -1,28 +1,28 @@
 SPECIFICATION Spec
 CONSTANTS
-  NV = 2
+  NV = 3
   StabV = {}
   HasHf = FALSE
   Absent0 = {}
   Admin = FALSE
-  AlwaysW = TRUE
-  AlwaysPRs = TRUE
+  AlwaysW = FALSE
+  AlwaysPRs = FALSE
   Cmds = {}
   Rewrites = FALSE
-  NP = 2
+  NP = 3
   UseQueue = TRUE
   SkipQueue = FALSE
   Faults = FALSE
   FaultKinds = {"crash", "reject", "third"}
-  MaxC = 9
+  MaxC = 40
   RepStatuses = {"SUCCESSFUL", "FAILED"}
   Atomic = TRUE
   ReportFine = FALSE
-  AutoApprove = TRUE
-  Opts = {}
-  ReportOnce = TRUE
-  MaxLevel = 10
-  EmitJson = FALSE
+  AutoApprove = FALSE
+  Opts = {"byp", "nooct", "mkw", "mkprs"}
+  ReportOnce = FALSE
+  MaxLevel = 100
+  EmitJson = TRUE
   PruneOnlyOwned = FALSE
   PushOnlyChanged = FALSE
   AtomicPush = TRUE
@@ -30,13 +30,4 @@ CONSTANTS
   FixDirect = TRUE
 CONSTRAINT Bound
 VIEW View
-INVARIANT C01_Incl
-INVARIANT C02_AllOrNone
-INVARIANT C05_Select
-INVARIANT C19_Children
-PROPERTY C03_Green
-PROPERTY C08_FF
-PROPERTY C08_Foreign
-PROPERTY C12_Held
-PROPERTY C20_EntryFate
 CHECK_DEADLOCK FALSE
